@@ -544,8 +544,11 @@ class InProtocolBase(ProtocolMixin):
         seconds = i
         microseconds = int(1e6 * f)
 
-        delta = timedelta(days=days, hours=hours, minutes=minutes,
-            seconds=seconds, microseconds=microseconds)
+        try:
+            delta = timedelta(days=days, hours=hours, minutes=minutes,
+                seconds=seconds, microseconds=microseconds)
+        except OverflowError:
+            raise ValidationError(string)
 
         if duration['sign'] == "-":
             delta *= -1
